@@ -16,6 +16,7 @@ import CaddyModel.C07.MatchLemmas
 import CaddyModel.C07.ListingLemmas
 import CaddyModel.C07.GlobLemmas
 import CaddyModel.C07.GlobFuel
+import CaddyModel.C07.Pool
 import CaddyModel.C07.Witness
 
 namespace CaddyModel.C07
@@ -319,6 +320,37 @@ example : (92 : UInt8) ∉ str "a*b[c-d]?^-]" := by decide
 example : globMatch (globSafe (str "a*b[c-d]?")) (str "a*b[c-d]?") = some true := by decide
 example : globMatch (globSafe (str "a*")) (str "ab") = some false := by decide
 example : globMatch (str "a*") (str "ab") = some true := by decide
+
+/-! ## request sequences: the pooled render buffer -/
+
+/-- **browse_history_independent.** Whatever the process served before — whichever instances,
+    roots, hide lists, and however those responses failed to be delivered — and whatever buffer
+    the shared pool therefore hands out, every request of a sequence gets exactly the answer it
+    gets when served alone: the listing of its own directory under its own hide rules, cut where
+    its own client stopped reading. -/
+theorem browse_history_independent (render : Bytes → List Bytes → Bytes) (pool : Bytes) (qs : List SeqReq) :
+    serveSeq true render pool qs = aloneAnswers render qs :=
+  serveSeq_reset render qs pool
+
+/-- in particular a probe request's answer does not depend on the faulted request before it -/
+theorem probe_after_fault_unchanged (render : Bytes → List Bytes → Bytes) (pool pool' : Bytes) (a b : SeqReq) :
+    (serveSeq true render pool [a, b])[1]? = (serveSeq true render pool' [b])[0]? := by
+  rw [browse_history_independent, browse_history_independent]
+  simp [aloneAnswers]
+
+/-- a toy renderer for the examples: the names, each followed by `;` -/
+def toyRender (_ : Bytes) (ns : List Bytes) : Bytes := (ns.map (· ++ [59])).flatten
+
+/-- instance A shows everything of `/srv`, its client hangs up after 2 bytes; instance B hides
+    `secret.txt` -/
+def seqA : SeqReq := ⟨wFS, { wCfg with hide := [] }, str "/", str "/", 2⟩
+def seqB : SeqReq := ⟨wFS, wCfg, str "/", str "/", 1000⟩
+
+example : serveSeq true toyRender [] [seqA, seqB] = [some (str "a."), some (str "a.txt;")] := by decide
+/-- **the `Reset` is what the theorem rests on**: without it B's response carries the rest of A's
+    listing — `secret.txt`, which B hides -/
+theorem pool_without_reset_leaks :
+    serveSeq false toyRender [] [seqA, seqB] = [some (str "a."), some (str "txt;secret.txt;a.txt;")] := by decide
 
 /-! ## model sanity: fuel
 
